@@ -429,6 +429,10 @@ pub fn start(cfg: Config) {
         }
     }
     s.cfg = cfg;
+    if let Ok(p) = std::env::var("VSIM_CHECK_AS") {
+        // debugging aid: evaluate this run as if another property were being checked
+        s.cfg.prop = p;
+    }
     let prio = s.fresh_prio();
     s.threads.push(Thread::new("main", [0; MAX_THREADS], prio));
     s.threads[0].vc[0] = 1;
